@@ -1,5 +1,6 @@
 import Drv.Trunc
 import Drv.Walk
+import Drv.Rules
 /-!
 Line-protocol driver: one operation per line on stdin, one canonical answer line on stdout.
 Every engine exports `handle : List String → Option String` answering only its own ops;
@@ -9,7 +10,8 @@ open Proto
 
 def handlers : List (List String → Option String) := [
   Drv.Trunc.handle,
-  Drv.WalkD.handle
+  Drv.WalkD.handle,
+  Drv.RulesD.handle
 ]
 
 def dispatch (fs : List String) : Option String :=
